@@ -3,6 +3,8 @@ C15 — lemmas about the table model: little-endian / uvarint round trips, the f
 table, the builder invariant, and the reader on a file produced by the builder.
 -/
 import LinVerif.Model.Table
+import LinVerif.Lemmas.C14FixedOffset
+set_option linter.unusedSimpArgs false
 namespace LinVerif.Table
 
 theorem leBytes_length : ∀ (w v : Nat), (leBytes w v).length = w := by
@@ -40,176 +42,6 @@ theorem leBytes_byte_lt : ∀ (w v : Nat), ∀ b ∈ leBytes w v, b < 256 := by
     rcases hb with rfl | hb
     · exact Nat.mod_lt _ (by decide)
     · exact ih _ b hb
-
-theorem minWidth_le_four (v : Nat) : minWidth v ≤ 4 := by unfold minWidth; split <;> (try split) <;> (try split) <;> omega
-theorem minWidth_pos (v : Nat) : 1 ≤ minWidth v := by unfold minWidth; split <;> (try split) <;> (try split) <;> omega
-theorem lt_pow_minWidth (v : Nat) (h : v < 4294967296) : v < 256 ^ minWidth v := by
-  unfold minWidth; split
-  · omega
-  · split
-    · omega
-    · split <;> omega
-
-/-- uvarint round trip (any accumulated state): x < 2^(7·f) and the encoding ends before byte 9 -/
-theorem uvarintAux_put : ∀ (f x i acc s : Nat) (rest : Bytes), x < 2 ^ (7 * f) → i + f ≤ 9 →
-    uvarintAux (putUvarintAux f x ++ rest) i acc s =
-      some (acc + x * 2 ^ s, i + (putUvarintAux f x).length) := by
-  intro f; induction f with
-  | zero => intro x i acc s rest hx hi
-            have : x = 0 := by simpa using hx
-            subst this
-            simp [putUvarintAux, uvarintAux]; omega
-  | succ f ih =>
-    intro x i acc s rest hx hi
-    simp only [putUvarintAux]
-    by_cases h : x < 128
-    · simp only [h, if_true, List.singleton_append, uvarintAux]
-      rw [if_neg (by omega), if_neg (by omega)]
-      simp
-    · simp only [h, if_false, List.cons_append, uvarintAux]
-      rw [if_neg (by omega), if_neg (by omega)]
-      have hx' : x / 128 < 2 ^ (7 * f) := by
-        have : 2 ^ (7 * (f + 1)) = 128 * 2 ^ (7 * f) := by
-          rw [Nat.mul_add, Nat.pow_add]; simp [Nat.mul_comm]
-        rw [this] at hx
-        exact Nat.div_lt_of_lt_mul hx
-      rw [ih (x / 128) (i + 1) _ (s + 7) rest hx' (by omega)]
-      have e1 : (x % 128 + 128) % 128 = x % 128 := by omega
-      have e2 : 2 ^ (s + 7) = 128 * 2 ^ s := by rw [Nat.pow_add]; simp [Nat.mul_comm]
-      simp only [e1, e2, List.length_cons]
-      congr 1
-      congr 1
-      · have := Nat.div_add_mod x 128
-        calc acc + x % 128 * 2 ^ s + x / 128 * (128 * 2 ^ s)
-            = acc + (128 * (x / 128) + x % 128) * 2 ^ s := by
-              rw [Nat.add_mul, Nat.mul_assoc, Nat.mul_comm (x / 128) (128 * 2 ^ s), Nat.mul_assoc,
-                Nat.mul_comm (2 ^ s) (x / 128)]; omega
-          _ = acc + x * 2 ^ s := by rw [this]
-      · omega
-
-theorem putUvarintAux_length_pos (f x : Nat) : 1 ≤ (putUvarintAux f x).length := by
-  cases f <;> simp [putUvarintAux] <;> split <;> simp
-
-theorem uvarint_put (x : Nat) (rest : Bytes) (hx : x < 2 ^ 63) :
-    uvarint (putUvarint x ++ rest) = some (x, (putUvarint x).length) := by
-  unfold uvarint putUvarint
-  -- fuel 9 would already do: putUvarintAux 10 x = putUvarintAux 9 x for x < 2^63
-  have key : ∀ f x, x < 2 ^ (7 * f) → putUvarintAux (f + 1) x = putUvarintAux f x := by
-    intro f; induction f with
-    | zero => intro x hx; have : x = 0 := by simpa using hx
-              subst this; simp [putUvarintAux]
-    | succ f ih =>
-      intro x hx
-      simp only [putUvarintAux]
-      by_cases h : x < 128
-      · simp [h]
-      · simp only [h, if_false]
-        have hx' : x / 128 < 2 ^ (7 * f) := by
-          have : 2 ^ (7 * (f + 1)) = 128 * 2 ^ (7 * f) := by
-            rw [Nat.mul_add, Nat.pow_add]; simp [Nat.mul_comm]
-          rw [this] at hx
-          exact Nat.div_lt_of_lt_mul hx
-        have := ih (x / 128) hx'
-        simp only [putUvarintAux] at this
-        rw [this]
-  rw [key 9 x (by simpa using hx)]
-  have := uvarintAux_put 9 x 0 0 0 rest (by simpa using hx) (by omega)
-  simpa using this
-
-theorem drop_take_flatten_chunks : ∀ (l : List Bytes) (w i : Nat) (c : Bytes), (∀ c ∈ l, c.length = w) →
-    l[i]? = some c → ((l.flatten).drop (i * w)).take w = c := by
-  intro l
-  induction l with
-  | nil => intro w i c _ h; simp at h
-  | cons c0 t ih =>
-    intro w i c hw h
-    have h0 : c0.length = w := hw c0 (List.mem_cons_self)
-    cases i with
-    | zero =>
-      simp at h; subst h
-      simp only [Nat.zero_mul, List.drop_zero, List.flatten_cons]
-      exact List.take_left' h0
-    | succ i =>
-      simp only [List.getElem?_cons_succ] at h
-      have e : (i + 1) * w = c0.length + i * w := by rw [Nat.add_mul, h0]; omega
-      rw [List.flatten_cons, e, ← List.drop_drop, List.drop_left]
-      exact ih w i c (fun c hc => hw c (List.mem_cons_of_mem _ hc)) h
-
-theorem length_flatten_chunks : ∀ (l : List Bytes) (w : Nat), (∀ c ∈ l, c.length = w) →
-    l.flatten.length = l.length * w := by
-  intro l
-  induction l with
-  | nil => intro w _; simp
-  | cons c0 t ih =>
-    intro w hw
-    simp only [List.flatten_cons, List.length_append, List.length_cons]
-    rw [ih w (fun c hc => hw c (List.mem_cons_of_mem _ hc)), hw c0 (List.mem_cons_self), Nat.add_mul]
-    omega
-
-/-- the offset table written by `FixedOffsetEncoder.Write` is read back entry by entry by
-`FixedOffsetDecoder.Unmarshal`/`Get` -/
-theorem unmarshal_encodeOffsets (values : List Nat) (max : Nat) (hne : values ≠ [])
-    (hmax : max < 4294967296) (hle : ∀ v ∈ values, v ≤ max) (hn : values.length < 2 ^ 63) :
-    ∃ d, Decoder.unmarshal (encodeOffsets values max) = some d ∧ d.count = values.length ∧
-      ∀ i, d.get i = values[i]? := by
-  have hmaxu : u32 max = max := Nat.mod_eq_of_lt hmax
-  generalize hw : minWidth max = w
-  have hw4 : w ≤ 4 := by rw [← hw]; exact minWidth_le_four _
-  have hw1 : 1 ≤ w := by rw [← hw]; exact minWidth_pos _
-  have hlt : max < 256 ^ w := by rw [← hw]; exact lt_pow_minWidth _ hmax
-  -- the chunks
-  let chunks : List Bytes := values.map (fun v => leBytes w v)
-  have hchunk : ∀ v ∈ values, (leBytes 4 (u32 v)).take w = leBytes w v := by
-    intro v hv
-    have : u32 v = v := Nat.mod_eq_of_lt (by have := hle v hv; omega)
-    rw [this, leBytes_take 4 w v hw4]
-  have hbody : values.flatMap (fun v => (leBytes 4 (u32 v)).take w) = chunks.flatten := by
-    rw [List.flatMap_def]
-    congr 1
-    exact List.map_congr_left hchunk
-  have hcl : ∀ c ∈ chunks, c.length = w := by
-    intro c hc
-    obtain ⟨v, _, rfl⟩ := List.mem_map.mp hc
-    exact leBytes_length w v
-  have hblen : chunks.flatten.length = values.length * w := by
-    rw [length_flatten_chunks chunks w hcl]; simp [chunks]
-  have henc : encodeOffsets values max = w :: (putUvarint values.length ++ chunks.flatten) := by
-    unfold encodeOffsets
-    have : values.isEmpty = false := by cases values <;> simp_all
-    simp only [this, hmaxu, hw, hbody]
-    simp
-  have huv := uvarint_put values.length chunks.flatten hn
-  have hL := putUvarintAux_length_pos 10 values.length
-  generalize hLdef : (putUvarint values.length).length = L at huv
-  have hL1 : 1 ≤ L := by rw [← hLdef]; exact hL
-  have hdlen : (encodeOffsets values max).length = 1 + L + w * values.length := by
-    rw [henc]; simp [hLdef, hblen, Nat.mul_comm]; omega
-  refine ⟨{ block := chunks.flatten, width := w, size := values.length }, ?_, ?_, ?_⟩
-  · unfold Decoder.unmarshal
-    rw [if_neg (by rw [hdlen]; omega)]
-    rw [henc] at hdlen ⊢
-    simp only [huv]
-    rw [if_neg (by omega), if_neg (by omega)]
-    congr 2
-    rw [hdlen.symm, List.take_length, Nat.add_comm 1 L, List.drop_succ_cons, ← hLdef, List.drop_left]
-  · unfold Decoder.count; simp; omega
-  · intro i
-    unfold Decoder.get
-    simp only
-    by_cases hi : i < values.length
-    · have hvn : 0 < values.length := by omega
-      have hpos : 0 < values.length * w := Nat.mul_pos hvn hw1
-      have hs : i * w + w ≤ values.length * w := by
-        have : (i + 1) * w ≤ values.length * w := Nat.mul_le_mul_right w hi
-        rw [Nat.add_mul] at this; omega
-      rw [if_neg (by rw [hblen]; omega), if_neg (by rw [hblen]; omega)]
-      have hci : chunks[i]? = some (leBytes w values[i]) := by simp [chunks, hi]
-      rw [drop_take_flatten_chunks chunks w i _ hcl hci]
-      rw [leVal_leBytes_of_lt w _ (by have := hle values[i] (List.getElem_mem hi); omega)]
-      simp [hi]
-    · have : values.length * w ≤ i * w := Nat.mul_le_mul_right w (by omega)
-      rw [if_pos (by rw [hblen]; omega)]
-      simp [hi]
 
 variable {B : Type}
 
@@ -301,14 +133,12 @@ for an entry that is not yet registered (a stream write in progress) -/
 structure Pre (K : KeySetOps B) (b : Builder B) (es : List (Nat × Bytes)) (extra : Bytes) : Prop where
   written : b.written = (es.map (·.2)).flatten ++ extra
   size : b.size = b.written.length
-  offsets : b.offsets = startsFrom 0 (es.map (·.2))
-  offMax : (∀ o ∈ b.offsets, o ≤ b.offMax) ∧ b.offMax ≤ (es.map (·.2)).flatten.length
+  offset : b.offset = FixedOffset.encOf true (startsFrom 0 (es.map (·.2)))
   keys : K.toList b.keys = es.map (·.1)
   asc : (es.map (·.1)).Pairwise (· < ·)
   first : b.first = es.isEmpty
   minKey : ∀ e, es.head? = some e → b.minKey = e.1
   maxKey : ∀ e, es.getLast? = some e → b.maxKey = e.1
-  offMaxEq : b.offMax = b.offsets.foldl Nat.max 0
   keysVal : b.keys = (es.map (·.1)).foldl K.add K.empty
 
 /-- between operations: no stream write in progress -/
@@ -317,8 +147,10 @@ structure Inv (K : KeySetOps B) (b : Builder B) (es : List (Nat × Bytes)) : Pro
   closedSW : b.sw.badKey = true
 
 theorem inv_init (K : KeySetOps B) (hK : K.Lawful) : Inv K (Builder.init K) [] := by
-  refine ⟨⟨?_, ?_, ?_, ?_, ?_, ?_, ?_, ?_, ?_, ?_, ?_⟩, rfl⟩ <;>
-    simp [Builder.init, Builder.written, Builder.offsets, startsFrom, hK.toList_empty]
+  refine ⟨⟨?_, ?_, ?_, ?_, ?_, ?_, ?_, ?_, ?_⟩, rfl⟩ <;>
+    first
+      | rfl
+      | simp [Builder.init, Builder.written, startsFrom, hK.toList_empty]
 
 /-- which keys pass `ensureIncreasingKey` -/
 def Fresh (es : List (Nat × Bytes)) (k : Nat) : Prop := ∀ l, es.getLast? = some l → l.1 < k
@@ -361,7 +193,7 @@ theorem write_pre {K : KeySetOps B} {b : Builder B} {es : List (Nat × Bytes)} {
     (h : Pre K b es extra) (d : Bytes) : Pre K (b.write d) es (extra ++ d) := by
   have hw : (b.write d).written = b.written ++ d := by
     simp [Builder.write, Builder.written]
-  refine ⟨?_, ?_, h.offsets, h.offMax, h.keys, h.asc, h.first, h.minKey, h.maxKey, h.offMaxEq, h.keysVal⟩
+  refine ⟨?_, ?_, h.offset, h.keys, h.asc, h.first, h.minKey, h.maxKey, h.keysVal⟩
   · rw [hw, h.written, List.append_assoc]
   · rw [hw]; simp [Builder.write, h.size]
 
@@ -377,6 +209,25 @@ theorem fresh_all_lt {es : List (Nat × Bytes)} {k : Nat} (hasc : (es.map (·.1)
       omega
     · simp at hx; omega
 
+/-- `FixedOffsetEncoder.Add` of an offset that is not below the ones already there (C14's model):
+accepted, and the encoder is the one holding the extended list -/
+theorem encOf_add (vs : List Nat) (off : Nat) (h : ∀ v ∈ vs, v ≤ off) :
+    (FixedOffset.encOf true vs).add (off : Int) = .ok (FixedOffset.encOf true (vs ++ [off])) := by
+  have hv : (FixedOffset.encOf true vs).values = vs.map Int.ofNat := rfl
+  have hlast : ¬ ((vs.map Int.ofNat).getLast?.getD 0 > (off : Int)) := by
+    cases hl : (vs.map Int.ofNat).getLast? with
+    | none => simp
+    | some z =>
+      have hz : z ∈ vs.map Int.ofNat := List.mem_of_getLast? hl
+      obtain ⟨v, hv', rfl⟩ := List.mem_map.mp hz
+      have := h v hv'
+      simp only [Option.getD_some, Int.ofNat_eq_natCast]; omega
+  unfold FixedOffset.Enc.add
+  rw [hv, if_neg (fun hc => hlast hc.2.2), if_neg (by omega)]
+  simp only [FixedOffset.encOf, FixedOffset.Enc.fromValues, FixedOffset.Enc.fresh, List.map_append,
+    List.map_cons, List.map_nil, List.foldl_append, List.foldl_cons, List.foldl_nil, Int.ofNat_eq_natCast]
+  rfl
+
 /-- `afterWrite` registering the entry whose bytes are the pending `extra` -/
 theorem afterWrite_pre {K : KeySetOps B} (hK : K.Lawful) {b : Builder B} {es : List (Nat × Bytes)}
     {extra : Bytes} (h : Pre K b es extra) (k : Nat) (hf : Fresh es k) :
@@ -384,38 +235,30 @@ theorem afterWrite_pre {K : KeySetOps B} (hK : K.Lawful) {b : Builder B} {es : L
       Pre K b' (es ++ [(k, extra)]) [] ∧ b'.sw = b.sw := by
   generalize hoff : (es.map (·.2)).flatten.length = off
   have hall := fresh_all_lt h.asc hf
-  have hnp : b.afterWrite K k off = some (b.register K k off) := by
+  have hadd : b.offset.add (off : Int) =
+      .ok (FixedOffset.encOf true (startsFrom 0 (es.map (·.2)) ++ [off])) := by
+    rw [h.offset]
+    apply encOf_add
+    intro v hv
+    have := (startsFrom_bounds (es.map (·.2)) 0 v hv).2
+    omega
+  have hnp : b.afterWrite K k off = some
+      { b with
+        offset := FixedOffset.encOf true (startsFrom 0 (es.map (·.2)) ++ [off])
+        keys := K.add b.keys k
+        minKey := if b.first then k else b.minKey
+        maxKey := k
+        first := false } := by
     unfold Builder.afterWrite
-    cases hr : b.offsRev with
-    | nil => rfl
-    | cons last t =>
-      simp only
-      rw [if_neg]
-      have : last ∈ b.offsets := by simp [Builder.offsets, hr]
-      have := h.offMax.1 last this
-      have := h.offMax.2
-      omega
+    rw [hadd]
   refine ⟨_, hnp, ?_, rfl⟩
-  have hoffs : (b.register K k off).offsets = b.offsets ++ [off] := by
-    simp [Builder.register, Builder.offsets]
-  refine ⟨?_, ?_, ?_, ?_, ?_, ?_, ?_, ?_, ?_, ?_, ?_⟩
+  refine ⟨?_, ?_, ?_, ?_, ?_, ?_, ?_, ?_, ?_⟩
   · show b.written = _
     rw [h.written]; simp
   · exact h.size
-  · rw [hoffs, h.offsets]
+  · show FixedOffset.encOf true (startsFrom 0 (es.map (·.2)) ++ [off]) = _
     simp only [List.map_append, List.map_cons, List.map_nil]
     rw [startsFrom_append, Nat.zero_add, hoff]
-  · constructor
-    · intro o ho
-      rw [hoffs] at ho
-      show o ≤ (if b.offMax < off then off else b.offMax)
-      rcases List.mem_append.mp ho with ho | ho
-      · have := h.offMax.1 o ho; split <;> omega
-      · simp at ho; subst ho; split <;> omega
-    · show (if b.offMax < off then off else b.offMax) ≤ _
-      have := h.offMax.2
-      simp only [List.map_append, List.map_cons, List.map_nil, List.flatten_append, List.length_append]
-      rw [hoff]; split <;> omega
   · show K.toList (K.add b.keys k) = _
     rw [hK.toList_add_max b.keys k (by rw [h.keys]; exact hall), h.keys]; simp
   · simp only [List.map_append, List.map_cons, List.map_nil]
@@ -437,11 +280,6 @@ theorem afterWrite_pre {K : KeySetOps B} (hK : K.Lawful) {b : Builder B} {es : L
   · intro e he
     show k = e.1
     simp at he; subst he; rfl
-  · rw [hoffs, List.foldl_append]
-    show (if b.offMax < off then off else b.offMax) = _
-    rw [← h.offMaxEq]
-    simp only [List.foldl_cons, List.foldl_nil, Nat.max_def]
-    split <;> split <;> omega
   · show K.add b.keys k = _
     rw [h.keysVal]; simp [List.foldl_append]
 
@@ -496,7 +334,7 @@ theorem run_writes_open {K : KeySetOps B} {es : List (Nat × Bytes)} : ∀ (ds :
       simp [Builder.step, Builder.swWrite, hb]
     have hp : Pre K ({ (b.write d) with sw := { (b.write d).sw with size := (b.write d).sw.size + d.length } }) es (extra ++ d) := by
       have := write_pre h d
-      exact ⟨this.written, this.size, this.offsets, this.offMax, this.keys, this.asc, this.first, this.minKey, this.maxKey, this.offMaxEq, this.keysVal⟩
+      exact ⟨this.written, this.size, this.offset, this.keys, this.asc, this.first, this.minKey, this.maxKey, this.keysVal⟩
     obtain ⟨b', h1, h2, h3, h4, h5⟩ := ih _ (extra ++ d) rest hp (by simpa [Builder.write] using hb)
     refine ⟨b', ?_, ?_, h3, ?_, ?_⟩
     · simp only [List.map_cons, List.cons_append, Builder.run, hstep]; exact h1
@@ -524,8 +362,8 @@ theorem stream_inv {K : KeySetOps B} (hK : K.Lawful) {b : Builder B} {es : List 
   have hsz : b.size = (es.map (·.2)).flatten.length := by
     rw [h.pre.size, h.pre.written]; simp
   have hpp : Pre K (b.prepare k) es [] :=
-    ⟨h.pre.written, h.pre.size, h.pre.offsets, h.pre.offMax, h.pre.keys, h.pre.asc, h.pre.first,
-      h.pre.minKey, h.pre.maxKey, h.pre.offMaxEq, h.pre.keysVal⟩
+    ⟨h.pre.written, h.pre.size, h.pre.offset, h.pre.keys, h.pre.asc, h.pre.first,
+      h.pre.minKey, h.pre.maxKey, h.pre.keysVal⟩
   simp only [Builder.run, Builder.step]
   by_cases hf : Fresh es k
   · have he : b.ensureIncreasingKey k = true := (ensure_iff h.pre k).mpr hf
@@ -539,7 +377,7 @@ theorem stream_inv {K : KeySetOps B} (hK : K.Lawful) {b : Builder B} {es : List 
     · rw [h1]
       simp only [Builder.run, Builder.step, Builder.commit, h3, Bool.false_eq_true, if_false, hk, ho, h6]
     · rw [acceptStep_fresh (e := (k, ds.flatten)) hf]
-      exact ⟨⟨h7.written, h7.size, h7.offsets, h7.offMax, h7.keys, h7.asc, h7.first, h7.minKey, h7.maxKey, h7.offMaxEq, h7.keysVal⟩, rfl⟩
+      exact ⟨⟨h7.written, h7.size, h7.offset, h7.keys, h7.asc, h7.first, h7.minKey, h7.maxKey, h7.keysVal⟩, rfl⟩
   · have he : b.ensureIncreasingKey k = false := by
       cases hb : b.ensureIncreasingKey k with
       | false => rfl
@@ -594,7 +432,8 @@ theorem items_inv {K : KeySetOps B} (hK : K.Lawful) : ∀ (items : List Put) {b 
 structure TableRepr (K : KeySetOps B) (r : Reader B) (es : List (Nat × Bytes)) : Prop where
   keys : K.toList r.keys = es.map (·.1)
   asc : (es.map (·.1)).Pairwise (· < ·)
-  offs : ∀ i, r.offsets.get i = (startsFrom 0 (es.map (·.2)))[i]?
+  blocks : ∀ (i : Nat) (e : Nat × Bytes), es[i]? = some e →
+    r.offsets.getBlock (i : Int) r.entries = .ok e.2
   entries : r.entries = (es.map (·.2)).flatten
 
 theorem footer_length (p1 p2 : Nat) : (footer p1 p2).length = sstFileFooterSize := by
@@ -610,54 +449,123 @@ theorem footer_magic (p1 p2 : Nat) :
     ((footer p1 p2).drop magicNumberAtFooter).take 8 = leBytes 8 magicNumberOffsetFile := by
   simp [footer, leBytes, magicNumberAtFooter]
 
-theorem encodeOffsets_length_ge (values : List Nat) (max : Nat) :
-    values.length ≤ (encodeOffsets values max).length := by
-  unfold encodeOffsets
-  cases values with
-  | nil => simp
-  | cons a t =>
-    simp only [List.isEmpty_cons, Bool.false_eq_true, if_false, List.length_append]
-    have hw := minWidth_pos (u32 max)
-    have : ∀ (l : List Nat), l.length ≤ (l.flatMap (fun v => (leBytes 4 (u32 v)).take (minWidth (u32 max)))).length := by
-      intro l
-      induction l with
-      | nil => simp
-      | cons x xs ih =>
-        simp only [List.flatMap_cons, List.length_append, List.length_cons, List.length_take, leBytes_length]
-        have := minWidth_le_four (u32 max)
-        omega
-    have := this (a :: t)
-    omega
-
-
 theorem magic_lt : magicNumberOffsetFile < 256 ^ 8 := by decide
 
-/-- a file written by `Close` is accepted by the reader, which then holds exactly the entries -/
+theorem startsFrom_mono : ∀ (vs : List Bytes) (o : Nat) (i : Nat) (h : i + 1 < (startsFrom o vs).length),
+    (startsFrom o vs)[i] ≤ (startsFrom o vs)[i + 1] := by
+  intro vs
+  induction vs with
+  | nil => intro o i h; simp [startsFrom] at h
+  | cons a t ih =>
+    intro o i h
+    cases i with
+    | zero =>
+      cases t with
+      | nil => simp [startsFrom] at h
+      | cons c t' => simp [startsFrom]
+    | succ i =>
+      simp only [startsFrom, List.getElem_cons_succ]
+      exact ih (o + a.length) i (by simpa [startsFrom] using h)
+
+/-- the decoder C14's `unmarshal_marshal` produces for the offsets `vs` -/
+def decOf (vs : List Nat) : FixedOffset.Dec :=
+  { block := FixedOffset.body (FixedOffset.uint32MinWidth (FixedOffset.maxNat vs)) vs
+    width := (FixedOffset.uint32MinWidth (FixedOffset.maxNat vs) : Nat)
+    size := (vs.length : Nat) }
+
+theorem putUvarintAux_length_le : ∀ (f x : Nat), (Varint.putUvarintAux f x).length ≤ f + 1 := by
+  intro f; induction f with
+  | zero => intro x; simp [Varint.putUvarintAux]
+  | succ f ih =>
+    intro x; simp only [Varint.putUvarintAux]; split
+    · simp only [List.length_cons]; have := ih (x / 128); omega
+    · simp
+
+/-- size of the marshalled offset table: one width byte, the uvarint count, `width ≤ 4` bytes per offset -/
+theorem marshal_length_bounds (vs : List Nat) (hne : vs ≠ []) (hlt : ∀ v ∈ vs, v < 4294967296) :
+    vs.length ≤ (FixedOffset.encOf true vs).marshal.length ∧
+    (FixedOffset.encOf true vs).marshal.length ≤ 12 + 4 * vs.length := by
+  rw [FixedOffset.encOf_marshal true vs hne hlt]
+  obtain ⟨hw1, hw4⟩ := FixedOffset.minWidth_range (FixedOffset.maxNat vs)
+  have hb : (FixedOffset.body (FixedOffset.uint32MinWidth (FixedOffset.maxNat vs)) vs).length =
+      vs.length * FixedOffset.uint32MinWidth (FixedOffset.maxNat vs) :=
+    FixedOffset.flatMap_length_const _ _ (fun v => FixedOffset.leBytes_length _ v hw4) vs
+  have hp := putUvarintAux_length_le 9 vs.length
+  simp only [List.length_append, List.length_cons, List.length_nil, hb]
+  unfold Varint.putUvarint
+  generalize FixedOffset.uint32MinWidth (FixedOffset.maxNat vs) = w at hw1 hw4
+  have h1 : vs.length * 1 ≤ vs.length * w := Nat.mul_le_mul_left _ hw1
+  have h2 : vs.length * w ≤ vs.length * 4 := Nat.mul_le_mul_left _ hw4
+  omega
+
+/-- a file written by `Close` is accepted by the reader, which then holds exactly the entries.
+The offset section is handled by C14's fixed-offset codec theorems (`unmarshal_marshal`,
+`getBlock_body` = `Props.C14.fixedoffset_roundtrip` / `fixedoffset_getBlock_correct`). -/
 theorem close_open {K : KeySetOps B} (hK : K.Lawful) {b : Builder B} {es : List (Nat × Bytes)}
     (h : Inv K b es) (hne : es ≠ [])
     (hkeys : ∀ e ∈ es, e.1 < 4294967296)
-    (hsize : b.size + (encodeOffsets b.offsets b.offMax).length < 4294967296) :
+    (hsize : b.size + b.offset.marshal.length < 4294967296) :
     ∃ file r, b.close K = some file ∧ Reader.open K file = some r ∧ TableRepr K r es := by
   have hp := h.pre
   have hW : b.written = (es.map (·.2)).flatten := by simpa using hp.written
   have hWl : b.written.length = b.size := hp.size.symm
-  generalize hO : encodeOffsets b.offsets b.offMax = O at hsize
-  generalize hKb : K.marshal b.keys = Kb
+  generalize hvs : startsFrom 0 (es.map (·.2)) = vs
+  have hoffset : b.offset = FixedOffset.encOf true vs := by rw [← hvs]; exact hp.offset
+  have hvl : vs.length = es.length := by rw [← hvs, startsFrom_length, List.length_map]
   have hnl : es.length ≠ 0 := by intro h0; exact hne (List.eq_nil_of_length_eq_zero h0)
+  have hvne : vs ≠ [] := by intro h0; rw [h0] at hvl; exact hnl hvl.symm
+  have hvb : ∀ v ∈ vs, v ≤ b.written.length := by
+    intro v hv; rw [← hvs] at hv
+    have := (startsFrom_bounds (es.map (·.2)) 0 v hv).2
+    rw [hW]; omega
+  have hvlt : ∀ v ∈ vs, v < 4294967296 := fun v hv => by have := hvb v hv; omega
+  obtain ⟨hlen1, _⟩ := marshal_length_bounds vs hvne hvlt
+  rw [hoffset] at hsize
+  have hmar := FixedOffset.encOf_marshal true vs hvne hvlt
+  generalize hO : (FixedOffset.encOf true vs).marshal = O at hsize hlen1 hmar
+  generalize hKb : K.marshal b.keys = Kb
   have hemp : K.isEmpty b.keys = false := by
     rw [hK.isEmpty_eq, hp.keys]; cases es <;> simp_all
   have hclose : b.close K = some (b.written ++ O ++ Kb ++ footer b.size (b.size + O.length)) := by
-    unfold Builder.close; simp only [hemp, Bool.false_eq_true, if_false, hO, hKb]
-  -- offsets decode
-  have hoffne : b.offsets ≠ [] := by
-    intro h0
-    have := congrArg List.length hp.offsets
-    rw [h0, startsFrom_length] at this; simp at this; exact hnl this.symm
-  have hmax : b.offMax < 4294967296 := by
-    have := hp.offMax.2; rw [← hW, hWl] at this; omega
-  have hcnt : b.offsets.length ≤ O.length := by rw [← hO]; exact encodeOffsets_length_ge _ _
-  obtain ⟨dec, hdec, hdcount, hdget⟩ := unmarshal_encodeOffsets b.offsets b.offMax hoffne hmax hp.offMax.1 (by omega)
-  rw [hO] at hdec
+    unfold Builder.close; simp only [hemp, Bool.false_eq_true, if_false, hoffset, hO, hKb]
+  -- offsets decode (C14)
+  obtain ⟨hw1, hw4⟩ := FixedOffset.minWidth_range (FixedOffset.maxNat vs)
+  have hm := FixedOffset.maxNat_lt vs 4294967296 (by omega) hvlt
+  have hfit : ∀ v ∈ vs, v < 256 ^ FixedOffset.uint32MinWidth (FixedOffset.maxNat vs) :=
+    fun v hv => FixedOffset.lt_pow_minWidth v _ (FixedOffset.le_maxNat vs v hv) hm
+  have hdec : FixedOffset.Dec.fresh.unmarshal O = (.ok [], decOf vs) := by
+    have := FixedOffset.unmarshal_marshal FixedOffset.Dec.fresh _ vs [] hw1 hw4 (by omega)
+    rw [List.append_nil, ← hmar] at this
+    exact this
+  generalize hd : decOf vs = dec at hdec
+  have hdsize : dec.sizeOf = (vs.length : Int) := by
+    rw [← hd]; simp only [FixedOffset.Dec.sizeOf, decOf]
+    simp
+    intro h0; omega
+  have hblocks : ∀ (i : Nat) (e : Nat × Bytes), es[i]? = some e →
+      dec.getBlock (i : Int) b.written = .ok e.2 := by
+    intro i e he
+    have hi : i < vs.length := by
+      rw [hvl]; exact (List.getElem?_eq_some_iff.mp he).1
+    have hgb := FixedOffset.getBlock_body _ vs hw1 hw4 hfit b.written i hi
+      (fun h' => by
+        have := startsFrom_mono (es.map (·.2)) 0 i (by rw [hvs]; exact h')
+        simpa [hvs] using this) hvb
+    have hgb' : dec.getBlock (i : Int) b.written =
+        .ok ((b.written.take ((vs[i + 1]?).getD b.written.length)).drop vs[i]) := by
+      rw [← hd]; exact hgb
+    rw [hgb']
+    -- the slice between start i and start i+1 is value i
+    have hv : (es.map (·.2))[i]? = some e.2 := by simp [he]
+    obtain ⟨s, h1, _, h3, h4⟩ := starts_block (es.map (·.2)) 0 i e.2 hv
+    rw [Nat.sub_zero] at h4
+    rw [hvs] at h1 h3
+    have hs : vs[i] = s := by
+      have := List.getElem?_eq_getElem hi; rw [h1] at this; exact (Option.some.inj this).symm
+    have hend : (vs[i + 1]?).getD b.written.length = s + e.2.length := by
+      rw [← h3, hW]
+      cases vs[i + 1]? <;> simp
+    rw [hend, hs, List.drop_take, Nat.add_sub_cancel_left, hW, h4]
   -- keys decode
   obtain ⟨keys', hku, hkl⟩ := hK.unmarshal_marshal b.keys (footer b.size (b.size + O.length))
     (by rw [hp.keys]; intro x hx; obtain ⟨e, he, rfl⟩ := List.mem_map.mp hx; exact hkeys e he)
@@ -687,40 +595,17 @@ theorem close_open {K : KeySetOps B} (hK : K.Lawful) {b : Builder B} {es : List 
     have e6 : full.take b.size = b.written := by
       have : full = b.written ++ (O ++ Kb ++ F) := by rw [← hfull]; simp
       rw [this, List.take_left' hWl]
-    have e7 : dec.count = K.card keys' := by
-      rw [hdcount, hK.card_eq, hkl, hp.keys, List.length_map]
-      have := congrArg List.length hp.offsets
-      rw [startsFrom_length, List.length_map] at this; exact this
+    have e7 : dec.sizeOf = (K.card keys' : Int) := by
+      rw [hdsize, hK.card_eq, hkl, hp.keys, List.length_map, hvl]
     unfold Reader.open
     rw [if_neg (by rw [hlen]; simp [sstFileFooterSize])]
     simp only [hfs, e1, e2, e3, e4, e5, e6, hdec, hku]
     rw [if_neg (by simp), if_neg (by simp), if_neg (by simp [e7])]
-  · exact ⟨by rw [hkl, hp.keys], hp.asc, fun i => by rw [hdget i, hp.offsets], hW⟩
+  · exact ⟨by rw [hkl, hp.keys], hp.asc, hblocks, hW⟩
 
 theorem getBlock_repr {K : KeySetOps B} {r : Reader B} {es : List (Nat × Bytes)} (h : TableRepr K r es)
-    (i : Nat) (e : Nat × Bytes) (he : es[i]? = some e) : r.offsets.getBlock i r.entries = some e.2 := by
-  have hv : (es.map (·.2))[i]? = some e.2 := by simp [he]
-  obtain ⟨s, h1, _, h3, h4⟩ := starts_block (es.map (·.2)) 0 i e.2 hv
-  rw [Nat.sub_zero] at h4
-  unfold Decoder.getBlock
-  rw [h.offs i, h1]
-  simp only [h.offs (i + 1)]
-  cases hn : (startsFrom 0 (es.map (·.2)))[i + 1]? with
-  | none =>
-    rw [hn] at h3
-    have h3' : 0 + (es.map (·.2)).flatten.length = s + e.2.length := h3
-    simp only
-    rw [h.entries, if_neg (by omega)]
-    have : (es.map (·.2)).flatten.length - s = e.2.length := by omega
-    rw [this, h4]
-  | some x =>
-    rw [hn] at h3
-    have h3' : x = s + e.2.length := h3
-    have hb := (startsFrom_bounds (es.map (·.2)) 0 x (List.mem_of_getElem? hn)).2
-    simp only
-    rw [h.entries, if_neg (by omega)]
-    have : x - s = e.2.length := by omega
-    rw [this, h4]
+    (i : Nat) (e : Nat × Bytes) (he : es[i]? = some e) :
+    r.offsets.getBlock (i : Int) r.entries = .ok e.2 := h.blocks i e he
 
 theorem countP_le_of_asc : ∀ (l : List Nat) (i k : Nat), l.Pairwise (· < ·) → l[i]? = some k →
     l.countP (fun x => decide (x ≤ k)) = i + 1 := by
@@ -755,8 +640,8 @@ theorem get_present {K : KeySetOps B} (hK : K.Lawful) {r : Reader B} {es : List 
     rw [hK.rank_eq, h.keys]; exact countP_le_of_asc _ i e.1 h.asc hk
   unfold Reader.get
   simp only [hc, Bool.not_true, Bool.false_eq_true, if_false, hr]
-  rw [if_neg (by omega)]
-  simp only [Nat.add_sub_cancel, getBlock_repr h i e hget]
+  have : ((i + 1 : Nat) : Int) - 1 = (i : Int) := by omega
+  rw [this, getBlock_repr h i e hget]
 
 /-- a key that was not added is reported absent -/
 theorem get_absent {K : KeySetOps B} (hK : K.Lawful) {r : Reader B} {es : List (Nat × Bytes)}
@@ -1007,41 +892,14 @@ theorem close_eq_of_inv {K : KeySetOps B} {b1 b2 : Builder B} {es : List (Nat ×
     (h1 : Inv K b1 es) (h2 : Inv K b2 es) : b1.close K = b2.close K := by
   have hw : b1.written = b2.written := by rw [h1.pre.written, h2.pre.written]
   have hs : b1.size = b2.size := by rw [h1.pre.size, h2.pre.size, hw]
-  have ho : b1.offsets = b2.offsets := by rw [h1.pre.offsets, h2.pre.offsets]
-  have hm : b1.offMax = b2.offMax := by rw [h1.pre.offMaxEq, h2.pre.offMaxEq, ho]
+  have ho : b1.offset = b2.offset := by rw [h1.pre.offset, h2.pre.offset]
   have hk : b1.keys = b2.keys := by rw [h1.pre.keysVal, h2.pre.keysVal]
   unfold Builder.close
-  rw [hw, hs, ho, hm, hk]
+  rw [hw, hs, ho, hk]
 
 /-- sufficient size condition for the 32-bit footer fields: value bytes + offset table < 4 GiB -/
 def SizeOK (es : List (Nat × Bytes)) : Prop :=
   (es.map (·.2)).flatten.length + 4 * es.length + 12 < 4294967296
-
-theorem putUvarintAux_length_le : ∀ (f x : Nat), (putUvarintAux f x).length ≤ f + 1 := by
-  intro f; induction f with
-  | zero => intro x; simp [putUvarintAux]
-  | succ f ih =>
-    intro x; simp only [putUvarintAux]; split
-    · simp
-    · simp only [List.length_cons]; have := ih (x / 128); omega
-
-theorem encodeOffsets_length_le (values : List Nat) (max : Nat) :
-    (encodeOffsets values max).length ≤ 12 + 4 * values.length := by
-  unfold encodeOffsets
-  split
-  · simp
-  · simp only [List.length_append, List.length_cons, List.length_nil]
-    have h1 := putUvarintAux_length_le 10 values.length
-    have h2 : ∀ (l : List Nat), (l.flatMap (fun v => (leBytes 4 (u32 v)).take (minWidth (u32 max)))).length ≤ 4 * l.length := by
-      intro l
-      induction l with
-      | nil => simp
-      | cons x xs ih =>
-        simp only [List.flatMap_cons, List.length_append, List.length_cons, List.length_take, leBytes_length]
-        omega
-    have := h2 values
-    unfold putUvarint
-    omega
 
 /-- any well-formed use of the builder ends in a state holding the accepted entries; if there is
 at least one item the file is written and the reader opened on it holds exactly those entries -/
@@ -1063,10 +921,141 @@ theorem build_ok {K : KeySetOps B} (hK : K.Lawful) (items : List Put) :
     exact hkeys it hit
   · have h1 : b.size = ((accepted (items.map Put.entry)).map (·.2)).flatten.length := by
       rw [hinv.pre.size, hinv.pre.written]; simp
-    have h2 := encodeOffsets_length_le b.offsets b.offMax
-    have h3 : b.offsets.length = (accepted (items.map Put.entry)).length := by
-      rw [hinv.pre.offsets, startsFrom_length, List.length_map]
     unfold SizeOK at hsz
+    generalize hvs : startsFrom 0 ((accepted (items.map Put.entry)).map (·.2)) = vs
+    have hvl : vs.length = (accepted (items.map Put.entry)).length := by
+      rw [← hvs, startsFrom_length, List.length_map]
+    have hvne : vs ≠ [] := by
+      intro h0; rw [h0] at hvl
+      exact hane (List.eq_nil_of_length_eq_zero hvl.symm)
+    have hvlt : ∀ v ∈ vs, v < 4294967296 := by
+      intro v hv; rw [← hvs] at hv
+      have := (startsFrom_bounds _ 0 v hv).2
+      omega
+    have h2 := (marshal_length_bounds vs hvne hvlt).2
+    rw [hinv.pre.offset, hvs]
     omega
+
+/-! ## byte-level layout of the finished file -/
+
+/-- `Close` writes: the value bytes, C14's marshalled table of their start offsets, the marshalled
+key bitmap, and the 17-byte footer pointing at the two middle sections -/
+theorem close_layout {K : KeySetOps B} {b : Builder B} {es : List (Nat × Bytes)} (h : Inv K b es)
+    (hK : K.Lawful) (hne : es ≠ []) :
+    b.close K = some
+      ((es.map (·.2)).flatten ++
+       (FixedOffset.encOf true (startsFrom 0 (es.map (·.2)))).marshal ++
+       K.marshal ((es.map (·.1)).foldl K.add K.empty) ++
+       footer (es.map (·.2)).flatten.length
+         ((es.map (·.2)).flatten.length +
+           (FixedOffset.encOf true (startsFrom 0 (es.map (·.2)))).marshal.length)) := by
+  have hp := h.pre
+  have hW : b.written = (es.map (·.2)).flatten := by simpa using hp.written
+  have hs : b.size = (es.map (·.2)).flatten.length := by rw [hp.size, hW]
+  have hemp : K.isEmpty b.keys = false := by
+    rw [hK.isEmpty_eq, hp.keys]; cases es <;> simp_all
+  have hemp' : K.isEmpty ((es.map (·.1)).foldl K.add K.empty) = false := by rw [← hp.keysVal]; exact hemp
+  unfold Builder.close
+  simp only [hW, hs, hp.offset, hp.keysVal, hemp', Bool.false_eq_true, if_false]
+
+/-- the footer read back field by field: positions modulo 2^32 (the code stores `uint32(pos)`),
+the version byte, the magic number -/
+theorem footer_fields (p1 p2 : Nat) :
+    (footer p1 p2).length = sstFileFooterSize ∧
+    leVal ((footer p1 p2).take 4) = p1 % 4294967296 ∧
+    leVal (((footer p1 p2).drop 4).take 4) = p2 % 4294967296 ∧
+    (footer p1 p2)[8]? = some version0 ∧
+    leVal (((footer p1 p2).drop magicNumberAtFooter).take 8) = magicNumberOffsetFile := by
+  refine ⟨footer_length p1 p2, ?_, ?_, ?_, ?_⟩
+  · rw [footer_pos1, leVal_leBytes]
+  · rw [footer_pos2, leVal_leBytes]
+  · simp [footer, leBytes]
+  · rw [footer_magic, leVal_leBytes_of_lt _ _ magic_lt]
+
+/-- a file whose last 8 bytes are not the magic number is refused -/
+theorem open_refuses_bad_magic (K : KeySetOps B) (full : Bytes)
+    (h : leVal ((full.drop (full.length - sstFileFooterSize + magicNumberAtFooter)).take 8) ≠ magicNumberOffsetFile) :
+    Reader.open K full = none := by
+  unfold Reader.open
+  split
+  · rfl
+  · simp only [h, ne_eq, not_false_eq_true, if_true]
+
+/-! ## rank and the 65536-key containers -/
+
+/-- `Rank(k)` split at k's container: the members in lower containers (the container's *base*)
+plus the members of k's own container up to k. The base counts members **below** the container's
+first possible key `(k/65536)·65536` — not `Rank` of that key, which also counts the key itself. -/
+theorem rank_container_split {K : KeySetOps B} (hK : K.Lawful) (b : B) (k : Nat) :
+    K.rank b k =
+      (K.toList b).countP (fun x => decide (x < k / 65536 * 65536)) +
+      (K.toList b).countP (fun x => decide (x / 65536 = k / 65536 ∧ x % 65536 ≤ k % 65536)) := by
+  rw [hK.rank_eq]
+  induction K.toList b with
+  | nil => rfl
+  | cons x t ih =>
+    simp only [List.countP_cons, ih]
+    have hx := Nat.div_add_mod x 65536
+    have hk := Nat.div_add_mod k 65536
+    have hxm := Nat.mod_lt x (show 65536 > 0 by decide)
+    have hkm := Nat.mod_lt k (show 65536 > 0 by decide)
+    by_cases h1 : x ≤ k
+    · by_cases h2 : x < k / 65536 * 65536
+      · have h3 : ¬ (x / 65536 = k / 65536 ∧ x % 65536 ≤ k % 65536) := by
+          intro hc; omega
+        simp [h1, h2, h3]; omega
+      · have h3 : x / 65536 = k / 65536 ∧ x % 65536 ≤ k % 65536 := by
+          have : x / 65536 = k / 65536 := by omega
+          exact ⟨this, by omega⟩
+        simp [h1, h2, h3]; omega
+    · have h2 : ¬ x < k / 65536 * 65536 := by omega
+      have h3 : ¬ (x / 65536 = k / 65536 ∧ x % 65536 ≤ k % 65536) := by
+        intro hc; omega
+      simp [h1, h2, h3]
+
+/-- the base of k's container in terms of `Rank`: `Rank(first key of the container)` minus one if
+that first key is itself a member -/
+theorem container_base_eq {K : KeySetOps B} (hK : K.Lawful) (b : B) (k : Nat) :
+    (K.toList b).countP (fun x => decide (x < k / 65536 * 65536)) + (K.toList b).countP (fun x => decide (x = k / 65536 * 65536)) =
+      K.rank b (k / 65536 * 65536) := by
+  rw [hK.rank_eq]
+  induction K.toList b with
+  | nil => rfl
+  | cons x t ih =>
+    simp only [List.countP_cons, ← ih]
+    by_cases h1 : x < k / 65536 * 65536
+    · have : ¬ x = k / 65536 * 65536 := by omega
+      have : x ≤ k / 65536 * 65536 := by omega
+      simp [*]; omega
+    · by_cases h2 : x = k / 65536 * 65536
+      · simp [h2]; omega
+      · have : ¬ x ≤ k / 65536 * 65536 := by omega
+        simp [*]
+
+/-! ## FindFiles / FindReaders -/
+
+/-- `FindFiles` consults every file of every level -/
+theorem mem_findFiles (levels : List (List FileMeta)) (key : Nat) (f : FileMeta) :
+    f ∈ findFiles levels key ↔ f ∈ levels.flatten ∧ f.minKey ≤ key ∧ key ≤ f.maxKey := by
+  rw [findFiles_eq, List.mem_filter]
+  simp
+
+theorem findReaders_spec {K : KeySetOps B} (fs : Nat → Option Bytes) (levels : List (List FileMeta))
+    (ent : FileMeta → List (Nat × Bytes)) (key : Nat) (hok : VersionOK K fs levels.flatten ent) :
+    findReaders K fs levels key = some ((findFiles levels key).map (·.fileNumber)) := by
+  unfold findReaders
+  have : ∀ l : List FileMeta, (∀ f ∈ l, f ∈ levels.flatten) →
+      l.mapM (fun f => match fs f.fileNumber with
+        | none => none
+        | some bytes => (Reader.open K bytes).map (fun _ => f.fileNumber)) = some (l.map (·.fileNumber)) := by
+    intro l
+    induction l with
+    | nil => intro _; rfl
+    | cons f t ih =>
+      intro hl
+      obtain ⟨bytes, r, h1, h2, _, _⟩ := hok f (hl f (List.mem_cons_self))
+      simp only [List.mapM_cons, h1, h2, Option.map_some, ih (fun g hg => hl g (List.mem_cons_of_mem _ hg))]
+      rfl
+  exact this _ (fun f hf => ((mem_findFiles levels key f).mp hf).1)
 
 end LinVerif.Table
